@@ -19,6 +19,15 @@ def font_variants():
     def std(base):
         return lambda alloc, shared: docs.std_font(base)
 
+    def std_own_descriptor(base):
+        # a standard-14 font that brings a font descriptor of its own (with the optional keys the built-in metrics lack)
+        def f(alloc, shared):
+            d = docs.std_font(base)
+            d[b"FontDescriptor"] = {b"Type": Name(b"FontDescriptor"), b"FontName": Name(base), b"Flags": 32, b"FontBBox": [-166, -225, 1000, 931], b"ItalicAngle": 0, b"Ascent": 718, b"Descent": -207, b"CapHeight": 718, b"StemV": 88, b"MissingWidth": 777, b"Leading": 99}
+            return d
+
+        return f
+
     def diffs(glyphs, widths_base):
         def f(alloc, shared):
             fd = alloc({b"Type": Name(b"FontDescriptor"), b"FontName": Name(b"Shared"), b"Flags": 32, b"FontBBox": [0, -200, 1000, 900], b"ItalicAngle": 0, b"Ascent": 800, b"Descent": -200, b"CapHeight": 700, b"StemV": 80, b"MissingWidth": 300})
@@ -158,6 +167,7 @@ def font_variants():
         "type0-shared-descendant-B": (shared_descendant("B"), 2),
         "type0-shared-descendant-C": (shared_descendant("C"), 2),
         "helvetica": (std(b"Helvetica"), 1),
+        "helvetica-own-descriptor": (std_own_descriptor(b"Helvetica"), 1),
         "courier": (std(b"Courier"), 1),
         "times": (std(b"Times-Roman"), 1),
         "shared-diffs-A": (diffs(GLYPHS_A, 400), 1),
@@ -187,7 +197,8 @@ VARIANTS = font_variants()
 def text_for(t, bpc):
     n = t.rint(2, 8, "txt.len")
     if bpc == 1:
-        return bytes(t.pick(b"ABCDEF AB", "txt.ch") for _ in range(n))
+        # (\x01: a code for which neither the usual encodings nor the built-in metrics have anything)
+        return bytes(t.pick(b"ABCDEF AB\x01", "txt.ch") for _ in range(n))
     if bpc == 2:
         return b"".join(t.pick([0x41, 0x42, 0x43, 0x44, 0x45, 0x3042, 0x30A2, 0x4E00, 1, 2, 3, 4], "txt.cid").to_bytes(2, "big") for _ in range(n))
     if bpc == "euc":
@@ -207,13 +218,13 @@ FAMILIES = [
     ["cid-truetype-cmap2-A", "cid-truetype-cmap2-B", "identity-h"],
     ["cjk-rksj-h", "cjk-rksj-h-as-stream-wmode1", "cjk-euc-h"],
     ["cjk-unijis-v", "cjk-unijis-v-as-stream-wmode0", "identity-h"],
-    ["helvetica", "courier", "times", "truetype-tounicode"],
+    ["helvetica", "courier", "times", "truetype-tounicode", "helvetica-own-descriptor"],
     ["type3-indirect-bbox", "type3-indirect-bbox-broken", "indirect-width", "indirect-width-broken", "helvetica"],
 ]
 # a twin document has the structure (object numbers, resource names, texts) of its sibling and the OTHER member of each
 # pair in place of a font
 SWAP = {}
-for _a, _b in [("type0-shared-descendant-A", "type0-shared-descendant-B"), ("shared-diffs-A", "shared-diffs-B"), ("unknown-base-diffs-A", "unknown-base-diffs-B"), ("type1-fontfile-A", "type1-fontfile-B"), ("cid-truetype-cmap2-A", "cid-truetype-cmap2-B"), ("type3-indirect-bbox", "type3-indirect-bbox-broken"), ("indirect-width", "indirect-width-broken")]:
+for _a, _b in [("type0-shared-descendant-A", "type0-shared-descendant-B"), ("shared-diffs-A", "shared-diffs-B"), ("unknown-base-diffs-A", "unknown-base-diffs-B"), ("type1-fontfile-A", "type1-fontfile-B"), ("cid-truetype-cmap2-A", "cid-truetype-cmap2-B"), ("type3-indirect-bbox", "type3-indirect-bbox-broken"), ("indirect-width", "indirect-width-broken"), ("helvetica", "helvetica-own-descriptor")]:
     SWAP[_a], SWAP[_b] = _b, _a
 TWIN = [False]
 
